@@ -1,15 +1,18 @@
 #!/bin/bash
-# usage: eval_benign_wave.sh <ID>...
+# usage: [TAG=b2] eval_benign_wave.sh <ID>...   evaluates /tmp/seed/<ID>/_seed/<k>, keeps them as seeded/benign/<ID>-<TAG>-<k>
+tag=${TAG:-b}
 for id in "$@"; do
   for d in /tmp/seed/$id/_seed/[0-9]*; do
     [ -f $d/patch.diff ] || continue
     k=$(basename $d)
-    /venv/bin/python /verif/tools/eval_benign.py $id $d --name $id-b-$k --keep 2>&1 | /venv/bin/python -c "
-import json,sys
+    name=$id-$tag-$k
+    /venv/bin/python /verif/tools/eval_benign.py $id $d --name $name --keep 2>&1 | NAME=$name /venv/bin/python -c "
+import json, os, sys
+name = os.environ['NAME']
 try:
-    r=json.load(sys.stdin)
+    r = json.load(sys.stdin)
 except Exception as e:
-    print('$id-b-$k EVAL-ERROR', e); sys.exit()
-print('$id-b-$k', 'tests_ok' if r.get('tests_ok') else 'TESTS-BROKEN' if r.get('patch_applies') else 'NO-APPLY', 'checks', list(r.get('checks',{})), 'ALARMS' if r.get('alarms') else 'silent', r.get('alarms'), [s[:200] for c in r.get('alarms',[]) for s in r['checks'][c]['signatures'][:2]])"
+    print(name, 'EVAL-ERROR', e); sys.exit()
+print(name, 'tests_ok' if r.get('tests_ok') else 'TESTS-BROKEN' if r.get('patch_applies') else 'NO-APPLY', 'checks', list(r.get('checks', {})), 'ALARMS' if r.get('alarms') else 'silent', r.get('alarms'), [s[:200] for c in r.get('alarms', []) for s in r['checks'][c]['signatures'][:2]])"
   done
 done
